@@ -6,6 +6,8 @@ import z3
 from verif.bounded import Stand
 from verif.engine import values as V
 from verif.engine.interp import PyFn
+from verif.engine import world as W
+from verif.engine.core import Unsupported
 from verif.engine.unit import Unit
 from verif.engine.values import SObj, SSeq, STensor, to_z3
 from verif.props.common import install_common
@@ -43,7 +45,18 @@ def _metrics(ctx, u):
     ctx.assume(z3.And(T >= 1, N >= 1, dt > 0, vol > 0, temp > 0))
     dist = z3.Function('dist', z3.IntSort(), z3.IntSort(), z3.RealSort())
     lat = SObj('Lattice', volume=vol)
-    traj = SObj('Trajectory', time_step=dt, species=SSeq(N, lambda k: SObj('Element')), metadata={'temperature': temp}, _n=T, _lat=lat)
+    mm = [[z3.Real(f'cell_{i_}{j_}') for j_ in range(3)] for i_ in range(3)]
+    cell = STensor((3, 3), lambda i_, j_: W._tab(mm, i_, j_), 'real')
+    traj = SObj('Trajectory', time_step=dt, species=SSeq(N, lambda k: SObj('Element')), metadata={'temperature': temp}, _n=T, _lat=lat, lattice=cell)
+
+    def det(ii, ll, a):
+        # assumed numpy contract: the signed determinant; its absolute value is the cell volume (positive only for a right-handed triple of vectors)
+        if a is not cell:
+            raise Unsupported('determinant of something that is not the cell matrix')
+        dv = z3.Real('det_cell')
+        ii.ctx.assume(dv * dv == vol * vol, tag='numpy.linalg.det(cell): |det| = volume, sign = handedness of the lattice vectors')
+        return dv
+    u.lib['numpy.linalg.det'] = det
     u.obj_attrs[('Trajectory', 'get_lattice')] = lambda i, o, l: PyFn(lambda ii, ll, *a: o.get('_lat'))
     u.obj_attrs[('Trajectory', 'distances_from_base_position')] = lambda i, o, l: PyFn(lambda ii, ll: STensor((N, T), lambda a, t: dist(to_z3(a), to_z3(t)), 'real'))
     m = SObj('TrajectoryMetrics', trajectory=traj)
@@ -67,7 +80,7 @@ def unit_formulas(tier):
             st['kw'] = {k: (v(st) if callable(v) else v) for k, v in kwargs.items()}
             return [m], st['kw'], st
         u.prove_function('gemdat.metrics', f'TrajectoryMetrics.{name}', setup, post, raises=(),
-                         replay={'fn': 'verif.props.c14:replay_metrics', 'sizes': lambda st: [], 'concretise': lambda mm, st, ob: {'seed': 3}})
+                         replay={'fn': 'verif.props.c14:replay_metrics', 'sizes': lambda st: [], 'concretise': lambda mm, st, ob: {'seed': 5, 'left_handed': True}})
 
     run('particle_density', {}, lambda i, st, r: [('rho = N / (V * 1e-30)', r == z3.ToReal(st['N']) / (st['vol'] * ANG * ANG * ANG))])
 
@@ -497,6 +510,9 @@ def replay_metrics(inputs):
     seed = inputs['seed']
     rng = np.random.default_rng(seed)
     lat = random_lattice(rng)
+    if inputs.get('left_handed', seed % 4 == 1):
+        from pymatgen.core import Lattice as _Lattice
+        lat = _Lattice(np.asarray(lat.matrix)[[1, 0, 2]])  # the same cell with two lattice vectors listed in the other order (a left-handed triple)
     T, N = int(rng.integers(12, 40)), int(rng.integers(2, 5))
     steps = rng.normal(scale=0.03, size=(T, N, 3))
     if inputs.get('weak'):
@@ -571,7 +587,7 @@ def bounded_metrics(tier, seed):
                'seeded random vs independent numpy formulas; every case non-trivial')
     rng = np.random.default_rng(seed + 1414)
     for c in range(n):
-        inp = {'seed': int(rng.integers(1, 10 ** 6)), 'k': float(rng.choice([0.5, 1.7, 3.0])), 's': float(rng.choice([0.5, 3.0])), 'weak': c % 4 == 2}
+        inp = {'seed': int(rng.integers(1, 10 ** 6)), 'k': float(rng.choice([0.5, 1.7, 3.0])), 's': float(rng.choice([0.5, 3.0])), 'weak': c % 4 == 2, 'left_handed': c % 3 == 1}
         if inp['weak']:
             inp['frozen'] = False
         r = st.guard(replay_metrics, inp)
